@@ -2983,3 +2983,625 @@ Proof.
     intros n. destruct (bf_static _ _ F n) as (_&_&_&_&_&_&_& -> & -> & -> &_). apply S2.
   - intros n. rewrite Hv. destruct (bf_log _ _ F) as (l & -> & Hl). rewrite (nec_inval l n Hl). auto.
 Qed.
+
+(** [Rest] reads neither edges, heights, observers, the registry nor the heap *)
+Lemma Rest_ext s s' :
+  (next s <= next s')%nat -> binds s' = binds s -> (forall m, has s' m <-> has s m) ->
+  adj s' = adj s -> invq s' = invq s -> status s' = status s -> setDuring s' = setDuring s ->
+  setRemoved s' = setRemoved s -> handlers s' = handlers s -> maxHeight s' = maxHeight s ->
+  stabNum s' = stabNum s -> log s' = log s ->
+  (forall m, nkind (nd s' m) = nkind (nd s m) /\ decl (nd s' m) = decl (nd s m) /\
+             scope (nd s' m) = scope (nd s m) /\ valid (nd s' m) = valid (nd s m) /\
+             inGraph (nd s' m) = inGraph (nd s m) /\ forceNec (nd s' m) = forceNec (nd s m) /\
+             hAdj (nd s' m) = hAdj (nd s m) /\ recomputedAt (nd s' m) = recomputedAt (nd s m) /\
+             changedAt (nd s' m) = changedAt (nd s m) /\ setAt (nd s' m) = setAt (nd s m)) ->
+  Rest s -> Rest s'.
+Proof.
+  intros Hnext Hb Hhas Hadj Hq Hst Hsd Hsr Hh Hmh Hsn Hlog Hnode R.
+  destruct R as [r_ids0 r_binds0 r_kinds0 r_scopes0 r_scoping0 r_vtop0 r_vdead0 r_vgen0 r_quiet0 r_shape0 r_stamps0 r_inval0].
+  assert (Hk : forall n, nkind (nd s' n) = nkind (nd s n)) by (intros n; apply Hnode).
+  assert (Hd : forall n, decl (nd s' n) = decl (nd s n)) by (intros n; apply Hnode).
+  assert (Hsc : forall n, scope (nd s' n) = scope (nd s n)) by (intros n; apply Hnode).
+  assert (Hv : forall n, valid (nd s' n) = valid (nd s n)) by (intros n; apply Hnode).
+  assert (Hg : forall n, inGraph (nd s' n) = inGraph (nd s n)) by (intros n; apply Hnode).
+  assert (Hf : forall n, forceNec (nd s' n) = forceNec (nd s n)) by (intros n; apply Hnode).
+  assert (Hhj : forall n, hAdj (nd s' n) = hAdj (nd s n)) by (intros n; apply Hnode).
+  assert (Hbd : forall b, bd s' b = bd s b) by (intros b; unfold bd; rewrite Hb; reflexivity).
+  constructor.
+  - destruct r_ids0 as [I1 I2]. split.
+    + intros n Hn. apply Hhas, I1 in Hn. lia.
+    + intros n p. rewrite Hd, Hhas. apply I2.
+  - apply (binds_wf_ext s s'); auto.
+  - apply (kinds_ok_ext s s'); auto.
+  - apply (scopes_ok_ext s s'); auto.
+  - apply (scoping_ok_ext s s'); auto.
+  - intros n. rewrite Hsc, Hv. auto.
+  - intros n b. rewrite Hhas, Hsc, Hv, Hg. unfold inGen. rewrite Hbd. apply r_vdead0.
+  - intros n b. unfold inGen. rewrite Hbd, !Hv. apply r_vgen0.
+  - apply (quiet_ext s s'); auto.
+  - apply (shape_ok_ext s s'); auto.
+  - apply (stamps_ok_ext s s'); auto; intros n; apply Hnode.
+  - intros n. rewrite Hv, Hlog. auto.
+Qed.
+
+Lemma opFuel_pos s : exists k, opFuel s = S k.
+Proof. unfold opFuel. exists ((next s + 4) * (Z.to_nat (maxHeight s) + 4) - 1)%nat. nia. Qed.
+
+Lemma propagateInvalidity_nil fuel s : invq s = [] -> propagateInvalidity (S fuel) s = Ok s.
+Proof. intros H. simpl. rewrite H. reflexivity. Qed.
+
+(** ** Observe *)
+Definition is_observe (o : op) : bool := match o with Observe _ => true | _ => false end.
+
+Theorem Inv_step_observe s o s' e :
+  Inv s -> op_ok s o = true -> op_clean s o = true -> is_observe o = true ->
+  step s o = Ok (s', e) -> e <> Some EHeightLimit -> Inv s'.
+Proof.
+  intros HI Hok Hcl Hgo Hstep Herr. destruct o as [| | | | | | | | | | |n| | | | | | | |]; try discriminate.
+  simpl in Hstep, Hok, Hcl. apply isTop_true in Hcl as [Hn Hscn].
+  unfold observe in Hstep.
+  set (o := next s) in *.
+  set (s1 := s <| next := S o |> <| obs := <[o := n]> (obs s) |> <| numNodes := numNodes s + 1 |>) in *.
+  set (s2 := upd s1 n (set observers (fun l => l ++ [o]))) in *.
+  pose proof (Inv_TInv s HI) as T. pose proof (Inv_Rest s HI) as R. pose proof (Inv_sreg s HI) as Hsreg.
+  assert (Hnd : forall m, nd s2 m = if decide (m = n) then set observers (fun l => l ++ [o]) (nd s n) else nd s m).
+  { intros m. unfold s2. rewrite nd_upd by exact Hn. reflexivity. }
+  assert (Hfield : forall {A} (g : node -> A), (forall x f, g (set observers f x) = g x) ->
+                   forall m, g (nd s2 m) = g (nd s m)).
+  { intros A g Hg' m. rewrite Hnd. destruct (decide (m = n)) as [->|]; [apply Hg'|reflexivity]. }
+  assert (Hobs : forall m, observers (nd s2 m) = if decide (m = n) then observers (nd s n) ++ [o] else observers (nd s m)).
+  { intros m. rewrite Hnd. destruct (decide (m = n)); reflexivity. }
+  assert (Hhas : forall m, has s2 m <-> has s m) by (intros m; apply (has_upd s1 n)).
+  assert (Ho_fresh : obs s !! o = None).
+  { destruct (obs s !! o) as [x|] eqn:E; [|reflexivity].
+    destruct (ob_ids s (inv_obs s HI) o x E) as (Hlt & _). unfold o in Hlt. lia. }
+  assert (Ho_nohas : ~ has s o).
+  { intros H. apply (io_lt s (inv_ids s HI)) in H. unfold o in H. lia. }
+  assert (R2 : Rest s2).
+  { apply (Rest_ext s s2); auto; try reflexivity.
+    - cbn. unfold o. lia.
+    - intros m. repeat split; apply Hfield; reflexivity. }
+  assert (St2 : Sta s2).
+  { destruct R2. split; auto. apply valid_closed; auto. }
+  assert (B2 : BInv [n] s2).
+  { destruct T as [t_edges0 t_zero0 t_nec0 t_necE0 t_W0 t_par0 t_height0 t_heap0 t_count0 t_obs0 t_valid0 t_log0 t_life0 t_lifeW0 t_nodup0].
+    assert (Hnil : forall m : nid, m ∉ []) by (intros m Hm; inversion Hm).
+    assert (Hne : forall m, m ∉ [n] -> m <> n) by (intros m Hm ->; apply Hm; left).
+    constructor.
+    - apply (edges_ok_ext s s2); auto; apply Hfield; reflexivity.
+    - intros m. rewrite (Hfield _ inGraph), (Hfield _ parents), (Hfield _ height) by reflexivity.
+      intros Hm. destruct (t_zero0 m Hm) as (? & ? & ? & ?). auto.
+    - intros m Hm. rewrite Hnd, decide_False by (apply Hne, Hm).
+      intros Hg. destruct (t_zero0 m Hg) as (? & ? & ? & ?). auto.
+    - intros m Hm. rewrite Hnd, decide_False by (apply Hne, Hm). apply t_nec0; [apply Hnil|intros []].
+    - intros m Hm. rewrite Hnd, decide_False by (apply Hne, Hm). apply t_par0, Hnil.
+    - intros m Hm. rewrite (Hfield _ inGraph) by reflexivity. intros Hg.
+      apply (good_h_ext s s2); auto; try (apply Hfield; reflexivity). apply (t_height0 m Hg).
+    - apply (heap_ok_ext s s2); auto; apply Hfield; reflexivity.
+    - destruct t_count0 as [C1 C2 C3]. split; [exact C1| |].
+      + intros m. rewrite (Hfield _ inGraph) by reflexivity. apply C2.
+      + cbn. rewrite C3, map_size_insert, Ho_fresh. lia.
+    - destruct t_obs0 as [O1 O2 O3]. split.
+      + intros m o'. rewrite Hobs. cbn. rewrite lookup_insert_Some.
+        destruct (decide (m = n)) as [->|Hne'].
+        * rewrite elem_of_app, elem_of_list_singleton, O1. split.
+          -- intros [Ho'| ->]; [right; split; [|exact Ho']|left; auto]. intros <-. congruence.
+          -- intros [[<- _]|[_ Ho']]; auto.
+        * rewrite O1. split; [|intros [[_ ?]|[_ ?]]; [congruence|assumption]].
+          intros Ho'. right. split; [|exact Ho']. intros <-. congruence.
+      + intros m. rewrite Hobs. destruct (decide (m = n)) as [->|]; [|apply O2].
+        apply NoDup_app. split; [apply O2|]. split; [|apply NoDup_singleton].
+        intros x Hx ->%elem_of_list_singleton. apply O1 in Hx. congruence.
+      + intros o' m. cbn. rewrite lookup_insert_Some. intros [[<- <-]|[Hne' Ho']].
+        * split; [lia|]. split; [rewrite Hhas; exact Ho_nohas|]. rewrite (Hfield _ scope) by reflexivity. exact Hscn.
+        * destruct (O3 o' m Ho') as (A & B & C). split; [unfold o; lia|].
+          split; [rewrite Hhas; exact B|]. rewrite (Hfield _ scope) by reflexivity. exact C.
+    - intros m. rewrite (Hfield _ inGraph), (Hfield _ valid) by reflexivity. apply t_valid0.
+    - intros m b. rewrite !(Hfield _ inGraph), (Hfield _ scope) by reflexivity. apply Hsreg.
+    - exact t_log0.
+    - intros m. rewrite (Hfield _ inGraph) by reflexivity. apply t_life0, Hnil. }
+  assert (Hnec2 : isNecessary (nd s2 n) = true).
+  { apply isNecessary_true. right; right. rewrite Hobs, decide_True by reflexivity.
+    intros E. apply app_eq_nil in E as [_ E]. discriminate. }
+  assert (Hfin : forall s3, BInv [] s3 -> Rest s3 -> Inv s3).
+  { intros s3 B3 R3. apply TInv_Rest_Inv; [apply BInv_TInv, B3|exact R3]. }
+  change (isNecessary (nd s1 n)) with (isNecessary (nd s n)) in Hstep.
+  destruct (isNecessary (nd s n)) eqn:Enec.
+  - apply ok_inv in Hstep as [-> _]. apply Hfin; [|exact R2].
+    assert (Hgn : inGraph (nd s n) = true) by (rewrite (inv_nec s HI n); exact Enec).
+    apply (BInv_close [] s2 n B2).
+    + rewrite (Hfield _ inGraph), Hgn by reflexivity. discriminate.
+    + rewrite (Hfield _ inGraph), Hgn, Hnec2 by reflexivity. reflexivity.
+    + intros _. split.
+      * rewrite (Hfield _ parents), (Hfield _ decl) by reflexivity. apply (inv_par s HI n Hgn).
+      * apply (good_h_ext s s2); auto; try (apply Hfield; reflexivity). apply (inv_height s HI n Hgn).
+  - assert (Hgn : inGraph (nd s n) = false) by (rewrite (inv_nec s HI n); exact Enec).
+    apply ebind_inv in Hstep as (s3 & e3 & H3 & Hrest).
+    pose proof (BN_spec_all (opFuel s2) s2 n [] s3 e3 St2 B2 ltac:(apply Hhas, Hn)) as Post.
+    destruct (BN_frame (opFuel s2) s2 n s3 e3 H3) as [F3 _].
+    assert (Post' : match e3 with None => bn_post [] s2 n s3 | Some x => x = EHeightLimit end).
+    { apply Post; auto.
+      - rewrite (Hfield _ inGraph) by reflexivity. exact Hgn.
+      - rewrite (Hfield _ valid) by reflexivity. apply (vo_top s (inv_valid s HI)), Hscn.
+      - intros c. rewrite (Hfield _ children) by reflexivity.
+        destruct (inv_zero s HI n Hgn) as (_ & -> & _). intros Hc; inversion Hc.
+      - intros b. rewrite (Hfield _ scope), Hscn by reflexivity. discriminate.
+      - intros x Hx. inversion Hx. }
+    destruct e3 as [x|].
+    { destruct Hrest as [[? _]|(_ & _ & ->)]; [discriminate|]. subst x. congruence. }
+    destruct Hrest as [[_ H]|(Hne & _)]; [|congruence].
+    destruct Post' as [P1 P2 P3 P4 P5 P6].
+    assert (Hq3 : invq s3 = []) by (rewrite P2; apply (q_invq s (inv_quiet s HI))).
+    destruct (opFuel_pos s3) as [k Ek]. rewrite Ek in H. apply lift_inv in H as [H _].
+    rewrite (propagateInvalidity_nil k s3 Hq3) in H. injection H as <-.
+    apply Hfin; [exact P1|]. apply (Rest_bn_frame s2 s3 F3 P2); [|exact R2]. apply (b_valid _ _ P1).
+Qed.
+
+(** * adjustHeights *)
+Record adj_ok (s : state) : Prop := {
+  ao_nodup : NoDup (adj_ids s);
+  ao_num : a_num (adj s) = Z.of_nat (length (adj_ids s));
+  ao_mem : forall n, n ∈ adj_ids s <-> hAdj (nd s n) <> unset
+}.
+
+(** what adjusting heights never touches *)
+Record aj_frame (s s' : state) : Prop := {
+  af_next : next s' = next s;
+  af_binds : binds s' = binds s;
+  af_reg : reg s' = reg s;
+  af_obs : obs s' = obs s;
+  af_invq : invq s' = invq s;
+  af_stabNum : stabNum s' = stabNum s;
+  af_status : status s' = status s;
+  af_numNodes : numNodes s' = numNodes s;
+  af_setDuring : setDuring s' = setDuring s;
+  af_setRemoved : setRemoved s' = setRemoved s;
+  af_handlers : handlers s' = handlers s;
+  af_maxHeight : maxHeight s' = maxHeight s;
+  af_log : log s' = log s;
+  af_len : length (a_byHeight (adj s')) = length (a_byHeight (adj s));
+  af_has : forall m, has s' m <-> has s m;
+  af_node : forall m,
+    nkind (nd s' m) = nkind (nd s m) /\ decl (nd s' m) = decl (nd s m) /\ scope (nd s' m) = scope (nd s m) /\
+    parents (nd s' m) = parents (nd s m) /\ children (nd s' m) = children (nd s m) /\
+    observers (nd s' m) = observers (nd s m) /\ valid (nd s' m) = valid (nd s m) /\
+    forceNec (nd s' m) = forceNec (nd s m) /\ inGraph (nd s' m) = inGraph (nd s m) /\
+    recomputedAt (nd s' m) = recomputedAt (nd s m) /\ changedAt (nd s' m) = changedAt (nd s m) /\
+    setAt (nd s' m) = setAt (nd s m) /\ value (nd s' m) = value (nd s m) /\ pending (nd s' m) = pending (nd s m)
+}.
+
+Lemma aj_frame_refl s : aj_frame s s.
+Proof. split; try reflexivity. intros m. repeat split. Qed.
+
+Lemma aj_frame_trans s1 s2 s3 : aj_frame s1 s2 -> aj_frame s2 s3 -> aj_frame s1 s3.
+Proof.
+  intros A B. split.
+  - rewrite (af_next _ _ B). apply A. - rewrite (af_binds _ _ B). apply A.
+  - rewrite (af_reg _ _ B). apply A. - rewrite (af_obs _ _ B). apply A.
+  - rewrite (af_invq _ _ B). apply A. - rewrite (af_stabNum _ _ B). apply A.
+  - rewrite (af_status _ _ B). apply A. - rewrite (af_numNodes _ _ B). apply A.
+  - rewrite (af_setDuring _ _ B). apply A. - rewrite (af_setRemoved _ _ B). apply A.
+  - rewrite (af_handlers _ _ B). apply A. - rewrite (af_maxHeight _ _ B). apply A.
+  - rewrite (af_log _ _ B). apply A. - rewrite (af_len _ _ B). apply A.
+  - intros m. rewrite (af_has _ _ B). apply A.
+  - intros m. destruct (af_node _ _ A m) as (?&?&?&?&?&?&?&?&?&?&?&?&?&?),
+                       (af_node _ _ B m) as (?&?&?&?&?&?&?&?&?&?&?&?&?&?).
+    repeat split; congruence.
+Qed.
+
+Lemma aj_frame_only_heap s s' : only_heap s s' -> aj_frame s s'.
+Proof.
+  intros F. split.
+  - apply (oh_next _ _ F). - apply (oh_binds _ _ F). - apply (oh_reg _ _ F). - apply (oh_obs _ _ F).
+  - apply (oh_invq _ _ F). - apply (oh_stabNum _ _ F). - apply (oh_status _ _ F). - apply (oh_numNodes _ _ F).
+  - apply (oh_setDuring _ _ F). - apply (oh_setRemoved _ _ F). - apply (oh_handlers _ _ F).
+  - apply (oh_maxHeight _ _ F). - apply (oh_log _ _ F). - rewrite (oh_adj _ _ F). reflexivity.
+  - apply (oh_has _ _ F).
+  - intros m. rewrite (oh_nd _ _ F). repeat split.
+Qed.
+
+Lemma aj_frame_setHeight s n h s' : setHeight s n h = Ok (s', None) -> aj_frame s s'.
+Proof.
+  intros H. split.
+  - apply (next_setHeight _ _ _ _ H). - apply (binds_setHeight _ _ _ _ H). - apply (reg_setHeight _ _ _ _ H).
+  - apply (obs_setHeight _ _ _ _ H). - apply (invq_setHeight _ _ _ _ H). - apply (stabNum_setHeight _ _ _ _ H).
+  - apply (status_setHeight _ _ _ _ H). - apply (numNodes_setHeight _ _ _ _ H).
+  - apply (setDuring_setHeight _ _ _ _ H). - apply (setRemoved_setHeight _ _ _ _ H).
+  - apply (handlers_setHeight _ _ _ _ H). - apply (maxHeight_setHeight _ _ _ _ H).
+  - apply (log_setHeight _ _ _ _ H). - rewrite (a_byHeight_setHeight _ _ _ _ H). reflexivity.
+  - apply (has_setHeight _ _ _ _ H).
+  - intros m. repeat split; apply (proj_nd_setHeight _ _ _ _ H); reflexivity.
+Qed.
+
+(* an update of hAdj together with a new adjust-heights heap *)
+Lemma aj_frame_hadj s n f a :
+  length (a_byHeight a) = length (a_byHeight (adj s)) ->
+  aj_frame s ((upd s n (set hAdj f)) <| adj := a |>).
+Proof.
+  intros Hl. split; try reflexivity; try exact Hl.
+  - intros m. apply (has_upd s n).
+  - intros m. change (nd (upd s n (set hAdj f) <| adj := a |>) m) with (nd (upd s n (set hAdj f)) m).
+    repeat split; apply nd_upd_proj; reflexivity.
+Qed.
+
+Lemma adj_ids_nil s : Forall (fun q => q = []) (a_byHeight (adj s)) -> adj_ids s = [].
+Proof.
+  unfold adj_ids. induction (a_byHeight (adj s)) as [|b l IH]; intros H; [reflexivity|].
+  apply stdpp.list.Forall_cons in H as [-> H]. simpl. apply IH, H.
+Qed.
+
+Lemma adj_ids_nil_inv s : adj_ids s = [] -> Forall (fun q => q = []) (a_byHeight (adj s)).
+Proof.
+  unfold adj_ids. induction (a_byHeight (adj s)) as [|b l IH]; intros H; [constructor|].
+  simpl in H. apply app_eq_nil in H as [-> H]. constructor; [reflexivity|apply IH, H].
+Qed.
+
+Lemma quiet_adj_ok s : quiet s -> adj_ok s.
+Proof.
+  intros Q. pose proof (adj_ids_nil s (q_by s Q)) as E. split; rewrite ?E.
+  - constructor.
+  - rewrite (q_anum s Q). reflexivity.
+  - intros n. rewrite (q_hadj s Q n). split; [intros H; inversion H|congruence].
+Qed.
+
+Lemma adj_ok_adjAdd s n s' :
+  adj_ok s -> has s n -> adjAdd s n = Ok s' ->
+  adj_ok s' /\ aj_frame s s' /\ heap s' = heap s /\
+  (forall m, height (nd s' m) = height (nd s m)) /\
+  (forall m, hAdj (nd s' m) <> unset <-> m = n \/ hAdj (nd s m) <> unset).
+Proof.
+  intros [A1 A2 A3] Hn H. apply adjAdd_inv in H as [[E ->]|(E & Hh & q & Hq & ->)].
+  { split; [split; assumption|]. split; [apply aj_frame_refl|]. split; [reflexivity|]. split; [reflexivity|].
+    intros m. split; [auto|]. intros [->|?]; assumption. }
+  set (h := height (nd s n)) in *.
+  set (s' := (upd s n (set hAdj (fun _ => h))) <| adj := _ |>).
+  assert (Hnd : forall m, nd s' m = if decide (m = n) then set hAdj (fun _ => h) (nd s n) else nd s m).
+  { intros m. unfold s'. change (nd (upd s n (set hAdj (fun _ => h)) <| adj := _ |>) m) with (nd (upd s n (set hAdj (fun _ => h))) m).
+    apply nd_upd, Hn. }
+  assert (Hhj : forall m, hAdj (nd s' m) = if decide (m = n) then h else hAdj (nd s m)).
+  { intros m. rewrite Hnd. destruct (decide (m = n)); reflexivity. }
+  destruct (concat_insert_perm _ _ _ (q ++ [n]) Hq) as (l1 & l2 & E1 & E2).
+  assert (Hids : adj_ids s' ≡ₚ n :: adj_ids s).
+  { unfold adj_ids, s'. cbn [adj set a_byHeight]. cbn. rewrite E2, E1.
+    rewrite <- !app_assoc. cbn. rewrite !app_assoc. symmetry. apply Permutation_middle. }
+  assert (Hnin : n ∉ adj_ids s) by (rewrite A3; intros Hx; apply Hx, E).
+  split; [|split; [|split; [reflexivity|split]]].
+  - split.
+    + rewrite Hids. apply NoDup_cons_2; assumption.
+    + rewrite Hids. unfold s'. cbn. rewrite A2. lia.
+    + intros m. rewrite Hids, elem_of_cons, Hhj, A3. destruct (decide (m = n)) as [->|Hne].
+      * split; [intros _; unfold unset; lia|auto].
+      * split; [intros [?|?]; [contradiction|assumption]|auto].
+  - apply aj_frame_hadj. cbn. apply insert_length.
+  - intros m. rewrite Hnd. destruct (decide (m = n)) as [->|]; reflexivity.
+  - intros m. rewrite Hhj. destruct (decide (m = n)) as [->|Hne].
+    + split; [auto|]. intros _. unfold unset. lia.
+    + split; [auto|]. intros [?|?]; [contradiction|assumption].
+Qed.
+
+Lemma adj_ok_pop s n s' :
+  adj_ok s -> adjRemoveMin s = Ok (Some n, s') ->
+  adj_ok s' /\ aj_frame s s' /\ heap s' = heap s /\ hAdj (nd s n) <> unset /\
+  (forall m, height (nd s' m) = height (nd s m)) /\
+  (forall m, hAdj (nd s' m) = if decide (m = n) then unset else hAdj (nd s m)).
+Proof.
+  intros [A1 A2 A3] H. apply adjRemoveMin_inv in H as [[? _]|(n' & x & b' & [= <-] & Hx & ->)]; [discriminate|].
+  destruct (concat_insert_perm _ _ _ b' Hx) as (l1 & l2 & E1 & E2).
+  assert (Hin : n ∈ adj_ids s).
+  { unfold adj_ids. rewrite E1. apply elem_of_app. right. left. }
+  assert (Hhn : hAdj (nd s n) <> unset) by (apply A3, Hin).
+  assert (Hn : has s n) by (apply (has_of_field hAdj); exact Hhn).
+  set (s' := (upd s n (set hAdj (fun _ => unset))) <| adj := _ |>).
+  assert (Hnd : forall m, nd s' m = if decide (m = n) then set hAdj (fun _ => unset) (nd s n) else nd s m).
+  { intros m. unfold s'. change (nd (upd s n (set hAdj (fun _ => unset)) <| adj := _ |>) m) with (nd (upd s n (set hAdj (fun _ => unset))) m).
+    apply nd_upd, Hn. }
+  assert (Hhj : forall m, hAdj (nd s' m) = if decide (m = n) then unset else hAdj (nd s m)).
+  { intros m. rewrite Hnd. destruct (decide (m = n)); reflexivity. }
+  assert (Hids : adj_ids s ≡ₚ n :: adj_ids s').
+  { unfold adj_ids, s'. cbn. rewrite E2, E1. symmetry. apply Permutation_middle. }
+  pose proof A1 as A1'. rewrite Hids in A1'. apply stdpp.list.NoDup_cons in A1' as [Hnin A1'].
+  split; [|split; [|split; [reflexivity|split; [exact Hhn|split; [|exact Hhj]]]]].
+  - split.
+    + exact A1'.
+    + unfold s' at 1. cbn. rewrite A2, Hids. cbn. lia.
+    + intros m. rewrite Hhj. destruct (decide (m = n)) as [->|Hne].
+      * split; [contradiction|congruence].
+      * rewrite <- A3, Hids, elem_of_cons. split; [auto|]. intros [?|?]; [contradiction|assumption].
+  - apply aj_frame_hadj. cbn. apply insert_length.
+  - intros m. rewrite Hnd. destruct (decide (m = n)) as [->|]; reflexivity.
+Qed.
+
+Lemma adj_ok_frame s s' :
+  adj_ids s' = adj_ids s -> a_num (adj s') = a_num (adj s) -> (forall m, hAdj (nd s' m) = hAdj (nd s m)) ->
+  adj_ok s -> adj_ok s'.
+Proof. intros E1 E2 E3 [A1 A2 A3]. split; rewrite ?E1, ?E2; auto. intros n. rewrite E3. apply A3. Qed.
+
+(** the height invariant while heights are being adjusted: an edge may be violated only if its
+    lower endpoint waits in the adjust-heights heap, or the edge is explicitly exempt *)
+Record HInv (exP exS : nid -> nid -> Prop) (s : state) : Prop := {
+  h_range : forall m, inGraph (nd s m) = true -> 0 <= height (nd s m) < maxHeight s;
+  h_par : forall m p, inGraph (nd s m) = true -> p ∈ parents (nd s m) -> hAdj (nd s p) = unset ->
+                      ~ exP m p -> height (nd s p) < height (nd s m);
+  h_scope : forall m b, inGraph (nd s m) = true -> scope (nd s m) = Some b -> hAdj (nd s b) = unset ->
+                        ~ exS m b -> height (nd s b) < height (nd s m);
+  h_zero : forall m, inGraph (nd s m) = false -> height (nd s m) = unset;
+  h_heap : hinv (heap s) /\ forall n, n ∈ Heap.ids (heap s) ->
+             inGraph (nd s n) = true /\ (hAdj (nd s n) = unset -> Heap.hinOf (heap s) n = height (nd s n));
+  h_adj : adj_ok s
+}.
+
+Definition noEx : nid -> nid -> Prop := fun _ _ => False.
+
+Lemma HInv_weaken (exP exS exP' exS' : nid -> nid -> Prop) s :
+  (forall m q, inGraph (nd s m) = true -> q ∈ parents (nd s m) -> exP m q -> exP' m q) ->
+  (forall m q, inGraph (nd s m) = true -> scope (nd s m) = Some q -> exS m q -> exS' m q) ->
+  HInv exP exS s -> HInv exP' exS' s.
+Proof.
+  intros H1 H2 [A B C D E F]. constructor; auto.
+Qed.
+
+(** structural facts adjusting relies on (none of them reads a height) *)
+Record AStat (s : state) : Prop := {
+  as_edges : edges_ok s;
+  as_nec : forall m, inGraph (nd s m) = isNecessary (nd s m);
+  as_child : forall c p, c ∈ children (nd s p) -> inGraph (nd s c) = true /\ c <> p;
+  as_scope : forall m b, inGraph (nd s m) = true -> scope (nd s m) = Some b ->
+                         m ∈ b_rhsNodes (bd s b) /\ nkind (nd s b) = KBindLhs b /\ m <> b;
+  as_kind : forall p b, has s p -> nkind (nd s p) = KBindLhs b -> b = p;
+  as_rhs : forall b r, r ∈ b_rhsNodes (bd s b) -> r <> b
+}.
+
+Lemma AStat_frame s s' : aj_frame s s' -> AStat s -> AStat s'.
+Proof.
+  intros F [A B C D E G].
+  assert (Hp : forall m, parents (nd s' m) = parents (nd s m)) by (intros m; apply (af_node _ _ F m)).
+  assert (Hc : forall m, children (nd s' m) = children (nd s m)) by (intros m; apply (af_node _ _ F m)).
+  assert (Hg : forall m, inGraph (nd s' m) = inGraph (nd s m)) by (intros m; apply (af_node _ _ F m)).
+  assert (Hk : forall m, nkind (nd s' m) = nkind (nd s m)) by (intros m; apply (af_node _ _ F m)).
+  assert (Hsc : forall m, scope (nd s' m) = scope (nd s m)) by (intros m; apply (af_node _ _ F m)).
+  assert (Hbd : forall b, bd s' b = bd s b) by (intros b; unfold bd; rewrite (af_binds _ _ F); reflexivity).
+  split.
+  - apply (edges_ok_ext s s'); auto.
+  - intros m. rewrite Hg, (isNecessary_ext (nd s' m) (nd s m)); auto; apply (af_node _ _ F m).
+  - intros c p. rewrite Hc, Hg. apply C.
+  - intros m b. rewrite Hg, Hsc, Hbd, Hk. apply D.
+  - intros p b. rewrite (af_has _ _ F), Hk. apply E.
+  - intros b r. rewrite Hbd. apply G.
+Qed.
+
+Lemma ensure_spec (exP exS : nid -> nid -> Prop) s oP c p s' e :
+  HInv exP exS s -> inGraph (nd s c) = true -> c <> p ->
+  ensureHeightRequirement s oP c p = Ok (s', e) ->
+  match e with
+  | None => HInv (fun m q => exP m q /\ ~ (m = c /\ q = p)) (fun m q => exS m q /\ ~ (m = c /\ q = p)) s' /\
+            aj_frame s s' /\ (forall m, m <> c -> nd s' m = nd s m) /\ height (nd s p) < height (nd s' c)
+  | Some x => x = ECycle \/ x = EHeightLimit
+  end.
+Proof.
+  intros HI Hgc Hcp H. unfold ensureHeightRequirement in H.
+  destruct (bool_decide (oP = c)); [apply fail_inv in H as [_ ->]; auto|].
+  destruct (Z.geb_spec (height (nd s p)) (height (nd s c))) as [Hge|Hlt].
+  2:{ apply ok_inv in H as [-> ->]. split; [|split; [apply aj_frame_refl|split; [auto|lia]]].
+      destruct HI as [A B C D E F]. constructor; auto.
+      - intros m q Hm Hq Hj Hex. destruct (decide (m = c /\ q = p)) as [[-> ->]|Hne]; [exact Hlt|].
+        apply B; auto; intros Hx; apply Hex; auto.
+      - intros m q Hm Hq Hj Hex. destruct (decide (m = c /\ q = p)) as [[-> ->]|Hne]; [exact Hlt|].
+        apply C; auto; intros Hx; apply Hex; auto. }
+  apply ebind_inv in H as (s1 & e1 & H1 & Hrest). apply lift_inv in H1 as [H1 ->].
+  destruct Hrest as [[_ H2]|(Hne & _)]; [|congruence].
+  assert (Hc : has s c) by (apply has_inGraph, Hgc).
+  destruct (adj_ok_adjAdd s c s1 (h_adj _ _ _ HI) Hc H1) as (A1 & F1 & Hw1 & Hh1 & Hj1).
+  rewrite !Hh1 in H2.
+  destruct e as [x|]; [apply setHeight_err in H2 as [-> _]; auto|].
+  assert (Hc1 : has s1 c) by (apply (af_has _ _ F1), Hc).
+  pose proof (aj_frame_setHeight _ _ _ _ H2) as F2.
+  assert (Hnd2 : forall m, m <> c -> nd s' m = nd s1 m) by (intros m Hm; apply (nd_setHeight_ne _ _ _ _ m H2 Hm)).
+  assert (Hh2 : forall m, height (nd s' m) = if decide (m = c) then height (nd s p) + 1 else height (nd s m)).
+  { intros m. rewrite (height_nd_setHeight _ _ _ _ H2 m Hc1), Hh1. reflexivity. }
+  assert (Hj2 : forall m, hAdj (nd s' m) = hAdj (nd s1 m)).
+  { intros m. apply (proj_nd_setHeight _ _ _ _ H2 hAdj). reflexivity. }
+  assert (F : aj_frame s s') by (eapply aj_frame_trans; eauto).
+  assert (Hg : forall m, inGraph (nd s' m) = inGraph (nd s m)) by (intros m; apply (af_node _ _ F m)).
+  assert (Hp : forall m, parents (nd s' m) = parents (nd s m)) by (intros m; apply (af_node _ _ F m)).
+  assert (Hsc : forall m, scope (nd s' m) = scope (nd s m)) by (intros m; apply (af_node _ _ F m)).
+  assert (Hjc : hAdj (nd s' c) <> unset) by (rewrite Hj2; apply Hj1; auto).
+  assert (Hjne : forall m, m <> c -> hAdj (nd s' m) = unset -> hAdj (nd s m) = unset).
+  { intros m Hm Hu. rewrite Hj2 in Hu. destruct (decide (hAdj (nd s m) = unset)) as [|Hn]; [assumption|].
+    exfalso. assert (hAdj (nd s1 m) <> unset) by (apply Hj1; auto). contradiction. }
+  split; [|split; [exact F|split]].
+  - destruct HI as [A B C D [E1 E2] G]. constructor.
+    + intros m. rewrite Hg, Hh2, (af_maxHeight _ _ F). intros Hm. destruct (decide (m = c)) as [->|]; [|apply A, Hm].
+      pose proof (setHeight_le _ _ _ _ H2) as Hle. rewrite (af_maxHeight _ _ F1) in Hle.
+      destruct (A c Hgc). lia.
+    + intros m q. rewrite Hg, Hp, !Hh2. intros Hm Hq Hj Hex.
+      destruct (decide (q = c)) as [->|Hqc]; [contradiction|].
+      apply Hjne in Hj; [|exact Hqc].
+      destruct (decide (m = c)) as [->|Hmc].
+      * destruct (decide (q = p)) as [->|Hqp]; [lia|].
+        assert (height (nd s q) < height (nd s c)); [|lia].
+        apply B; auto; intros Hx; apply Hex; split; [exact Hx|]; intros [_ ?]; contradiction.
+      * apply B; auto; intros Hx; apply Hex; split; [exact Hx|]; intros [? _]; contradiction.
+    + intros m q. rewrite Hg, Hsc, !Hh2. intros Hm Hq Hj Hex.
+      destruct (decide (q = c)) as [->|Hqc]; [contradiction|].
+      apply Hjne in Hj; [|exact Hqc].
+      destruct (decide (m = c)) as [->|Hmc].
+      * destruct (decide (q = p)) as [->|Hqp]; [lia|].
+        assert (height (nd s q) < height (nd s c)); [|lia].
+        apply C; auto; intros Hx; apply Hex; split; [exact Hx|]; intros [_ ?]; contradiction.
+      * apply C; auto; intros Hx; apply Hex; split; [exact Hx|]; intros [? _]; contradiction.
+    + intros m. rewrite Hg, Hh2. intros Hm. rewrite decide_False by (intros ->; congruence). apply D, Hm.
+    + rewrite (heap_setHeight _ _ _ _ H2), Hw1. split; [exact E1|]. intros m Hm. rewrite Hg, Hh2.
+      destruct (E2 m Hm) as [Hgm Hhm]. split; [exact Hgm|]. intros Hj.
+      destruct (decide (m = c)) as [->|Hmc]; [contradiction|]. apply Hhm, Hjne; assumption.
+    + apply (adj_ok_frame s1 s'); auto.
+      * unfold adj_ids. rewrite (a_byHeight_setHeight _ _ _ _ H2). reflexivity.
+      * apply (a_num_setHeight _ _ _ _ H2).
+  - intros m Hm. rewrite Hnd2 by exact Hm.
+    apply adjAdd_inv in H1 as [[_ ->]|(_ & _ & q & _ & ->)]; [reflexivity|].
+    match goal with |- nd (?a <| adj := ?b |>) m = _ => change (nd (a <| adj := b |>) m) with (nd a m) end.
+    apply nd_upd_ne, Hm.
+  - rewrite Hh2, decide_True by reflexivity. lia.
+Qed.
+
+Lemma adjustLoop_S fuel s oP :
+  adjustLoop (S fuel) s oP =
+  if a_num (adj s) <=? 0 then ok s else
+  '(popped, s) <-! adjRemoveMin s;
+  match popped with
+  | None => Crash NilDeref
+  | Some p =>
+    s <-? lift (if inHeap s p then heapFix s p else Ok s);
+    s <-? efold (fun s c => ensureHeightRequirement s oP c p) (children (nd s p)) s;
+    s <-? (match nkind (nd s p) with
+           | KBindLhs b =>
+             efold (fun s r => if isNecessary (nd s r)
+                               then ensureHeightRequirement s oP r p else ok s)
+                   (b_rhsNodes (bd s b)) s
+           | _ => ok s
+           end);
+    adjustLoop fuel s oP
+  end.
+Proof. reflexivity. Qed.
+
+Definition adj_err (x : err) : Prop := x = ECycle \/ x = EHeightLimit.
+
+Lemma adjustLoop_spec fuel : forall s oP s' e,
+  AStat s -> HInv noEx noEx s -> adjustLoop fuel s oP = Ok (s', e) ->
+  match e with
+  | None => HInv noEx noEx s' /\ a_num (adj s') <= 0 /\ aj_frame s s'
+  | Some x => adj_err x
+  end.
+Proof.
+  induction fuel as [|fuel IH]; intros s oP s' e St HI H; [discriminate|].
+  rewrite adjustLoop_S in H.
+  destruct (Z.leb_spec (a_num (adj s)) 0) as [Hle|Hpos].
+  { apply ok_inv in H as [-> ->]. split; [exact HI|]. split; [exact Hle|apply aj_frame_refl]. }
+  apply rbind_ok in H as ([popped s1] & H1 & H). destruct popped as [p|]; [|discriminate].
+  destruct (adj_ok_pop s p s1 (h_adj _ _ _ HI) H1) as (A1 & F1 & Hw1 & Hjp & Hh1 & Hj1).
+  assert (Hp : has s p) by (apply (has_of_field hAdj); exact Hjp).
+  apply ebind_inv in H as (s2 & e2 & H2 & Hrest). apply lift_inv in H2 as [H2 ->].
+  destruct Hrest as [[_ H]|(Hne & _)]; [|congruence].
+  assert (Hg1 : forall m, inGraph (nd s1 m) = inGraph (nd s m)) by (intros m; apply (af_node _ _ F1 m)).
+  (* after the pop and the fix of the recompute heap *)
+  assert (F12 : only_heap s1 s2 /\ hinv (heap s2) /\
+                (forall n, n ∈ Heap.ids (heap s2) ->
+                   inGraph (nd s1 n) = true /\ (hAdj (nd s1 n) = unset -> Heap.hinOf (heap s2) n = height (nd s1 n)))).
+  { destruct (h_heap _ _ _ HI) as [E1 E2]. destruct (inHeap s1 p) eqn:Em.
+    - assert (Hin : p ∈ Heap.ids (heap s)).
+      { apply (inHeap_iff s p E1). unfold inHeap in *. rewrite <- Hw1. exact Em. }
+      destruct (E2 p Hin) as [Hgp _].
+      assert (Hhp : 0 <= height (nd s1 p)) by (rewrite Hh1; apply (h_range _ _ _ HI p Hgp)).
+      assert (E1' : hinv (heap s1)) by (rewrite Hw1; exact E1).
+      destruct (heapFix_spec s1 p s2 E1' Em Hhp H2) as (F & I' & P & Hin').
+      split; [exact F|]. split; [exact I'|]. intros n. rewrite P, Hw1, Hin', ?Hw1. intros Hn.
+      destruct (E2 n Hn) as [Hgn Hhn]. rewrite Hg1. split; [exact Hgn|].
+      destruct (decide (n = p)) as [->|Hnp]; [reflexivity|].
+      rewrite Hj1, decide_False, Hh1 by exact Hnp. exact Hhn.
+    - injection H2 as <-. split; [apply only_heap_refl|]. split; [rewrite Hw1; exact E1|].
+      intros n. rewrite Hw1. intros Hn. destruct (E2 n Hn) as [Hgn Hhn]. rewrite Hg1. split; [exact Hgn|].
+      assert (Hnp : n <> p).
+      { intros ->. apply (inHeap_iff s p E1) in Hn. unfold inHeap in *. rewrite Hw1 in Em. congruence. }
+      rewrite Hj1, decide_False, Hh1 by exact Hnp. exact Hhn. }
+  destruct F12 as (F12 & Hi2 & Hq2).
+  assert (F2 : aj_frame s s2) by (eapply aj_frame_trans; [exact F1|apply aj_frame_only_heap, F12]).
+  assert (St2 : AStat s2) by (apply (AStat_frame s s2 F2 St)).
+  assert (Hnd2 : forall m, nd s2 m = nd s1 m) by apply (oh_nd _ _ F12).
+  assert (HI2 : HInv (fun m q => q = p /\ m ∈ children (nd s2 p)) (fun m q => q = p) s2).
+  { destruct HI as [A B C D E G]. constructor.
+    - intros m. rewrite Hnd2, Hg1, Hh1, (af_maxHeight _ _ F2). apply A.
+    - intros m q. rewrite !Hnd2, Hg1, !Hh1, Hj1. destruct (af_node _ _ F1 m) as (_&_&_&->&_).
+      intros Hm Hq Hj Hex. destruct (decide (q = p)) as [->|Hqp].
+      + exfalso. apply Hex. split; [reflexivity|]. destruct (af_node _ _ F1 p) as (_&_&_&_&->&_).
+        apply (edges_parent_child s m p (as_edges s St)), Hq.
+      + apply B; auto.
+    - intros m q. rewrite !Hnd2, Hg1, !Hh1, Hj1. destruct (af_node _ _ F1 m) as (_&_&->&_).
+      intros Hm Hq Hj Hex. destruct (decide (q = p)) as [->|Hqp]; [exfalso; apply Hex; reflexivity|].
+      apply C; auto.
+    - intros m. rewrite Hnd2, Hg1, Hh1. apply D.
+    - split; [exact Hi2|]. intros n Hn. rewrite !Hnd2. apply Hq2, Hn.
+    - apply (adj_ok_frame s1 s2); auto.
+      + unfold adj_ids. rewrite (oh_adj _ _ F12). reflexivity.
+      + rewrite (oh_adj _ _ F12). reflexivity.
+      + intros m. rewrite Hnd2. reflexivity. }
+  (* the children of p *)
+  apply ebind_inv in H as (s3 & e3 & H3 & Hrest).
+  pose (I3 := fun (rest : list nid) (st : state) =>
+    HInv (fun m q => q = p /\ m ∈ rest) (fun m q => q = p) st /\ aj_frame s2 st /\ nd st p = nd s2 p /\
+    (forall c, c ∈ rest -> c ∈ children (nd s2 p))).
+  assert (L3 : match e3 with None => I3 [] s3 | Some x => adj_err x end).
+  { eapply (efold_inv I3 (fun _ x => adj_err x)); [| |exact H3].
+    { split; [exact HI2|split; [apply aj_frame_refl|split; [reflexivity|auto]]]. }
+    intros c rest st st1 e1 (Hst & Fst & Ep & Hsub) Hc.
+    assert (Stst : AStat st) by (apply (AStat_frame s2 st Fst St2)).
+    destruct (as_child s2 St2 c p (Hsub c ltac:(left))) as [Hgc Hcp].
+    assert (Hgc' : inGraph (nd st c) = true).
+    { destruct (af_node _ _ Fst c) as (_&_&_&_&_&_&_&_&->&_). exact Hgc. }
+    pose proof (ensure_spec _ _ st oP c p st1 e1 Hst Hgc' Hcp Hc) as E.
+    destruct e1 as [x|]; [exact E|]. destruct E as (E1 & E2 & E3 & _).
+    split; [|split; [eapply aj_frame_trans; eauto|split]].
+    - eapply HInv_weaken; [| |exact E1].
+      + intros m q _ _ [[-> Hm] Hne]. split; [reflexivity|].
+        apply elem_of_cons in Hm as [->|Hm]; [exfalso; apply Hne; auto|exact Hm].
+      + intros m q _ _ [-> _]. reflexivity.
+    - rewrite E3 by congruence. exact Ep.
+    - intros c' Hc'. apply Hsub. right. exact Hc'. }
+  destruct e3 as [x|].
+  { destruct Hrest as [[? _]|(_ & _ & ->)]; [discriminate|exact L3]. }
+  destruct Hrest as [[_ H]|(Hne & _)]; [|congruence].
+  destruct L3 as (HI3 & F3 & Ep3 & _).
+  assert (F03 : aj_frame s s3) by (eapply aj_frame_trans; eauto).
+  assert (St3 : AStat s3) by (apply (AStat_frame s s3 F03 St)).
+  assert (Hp3 : has s3 p) by (apply (af_has _ _ F03), Hp).
+  (* the scope nodes of p, when p is a lhs-change node *)
+  apply ebind_inv in H as (s4 & e4 & H4 & Hrest).
+  assert (L4 : match e4 with None => HInv noEx noEx s4 /\ aj_frame s3 s4 | Some x => adj_err x end).
+  { destruct (nkind (nd s3 p)) as [| | | | | | |b|b] eqn:Ek;
+      try (apply ok_inv in H4 as [-> ->]; split; [|apply aj_frame_refl];
+           eapply HInv_weaken; [| |exact HI3];
+           [intros m q _ _ [_ Hm]; inversion Hm
+           |intros m q Hm Hq ->; destruct (as_scope s3 St3 m p Hm Hq) as (_ & Hk & _); congruence]).
+    assert (b = p) as -> by (apply (as_kind s3 St3 p b Hp3 Ek)).
+    pose (I4 := fun (rest : list nid) (st : state) =>
+      HInv noEx (fun m q => q = p /\ m ∈ rest) st /\ aj_frame s3 st /\
+      (forall r, r ∈ rest -> r ∈ b_rhsNodes (bd s3 p))).
+    assert (I40 : I4 (b_rhsNodes (bd s3 p)) s3).
+    { split; [|split; [apply aj_frame_refl|auto]]. eapply HInv_weaken; [| |exact HI3].
+      - intros m q _ _ [_ Hm]. inversion Hm.
+      - intros m q Hm Hq ->. split; [reflexivity|]. apply (as_scope s3 St3 m p Hm Hq). }
+    assert (L4' : match e4 with None => I4 [] s4 | Some x => adj_err x end).
+    { eapply (efold_inv I4 (fun _ x => adj_err x)); [exact I40| |exact H4].
+      intros r rest st st1 e1 (Hst & Fst & Hsub) Hr.
+      assert (Fst' : aj_frame s st) by (eapply aj_frame_trans; eauto).
+      assert (Stst : AStat st) by (apply (AStat_frame s st Fst' St)).
+      assert (Hrp : r <> p) by (apply (as_rhs s3 St3 p r), Hsub; left).
+      destruct (isNecessary (nd st r)) eqn:En.
+      - assert (Hgr : inGraph (nd st r) = true) by (rewrite (as_nec st Stst r); exact En).
+        pose proof (ensure_spec _ _ st oP r p st1 e1 Hst Hgr Hrp Hr) as E.
+        destruct e1 as [x|]; [exact E|]. destruct E as (E1 & E2 & _).
+        split; [|split; [eapply aj_frame_trans; eauto|]].
+        + eapply HInv_weaken; [| |exact E1].
+          * intros m q _ _ [[] _].
+          * intros m q _ _ [[-> Hm] Hne]. split; [reflexivity|].
+            apply elem_of_cons in Hm as [->|Hm]; [exfalso; apply Hne; auto|exact Hm].
+        + intros r' Hr'. apply Hsub. right. exact Hr'.
+      - apply ok_inv in Hr as [-> ->].
+        assert (Hgr : inGraph (nd st r) = false) by (rewrite (as_nec st Stst r); exact En).
+        split; [|split; [exact Fst|]].
+        + eapply HInv_weaken; [| |exact Hst].
+          * intros m q _ _ [].
+          * intros m q Hm _ [-> Hm']. split; [reflexivity|].
+            apply elem_of_cons in Hm' as [->|Hm']; [congruence|exact Hm'].
+        + intros r' Hr'. apply Hsub. right. exact Hr'. }
+    destruct e4 as [x|]; [exact L4'|]. destruct L4' as (A & B & _). split; [|exact B].
+    eapply HInv_weaken; [| |exact A].
+    - intros m q _ _ [].
+    - intros m q _ _ [_ Hm]. inversion Hm. }
+  destruct e4 as [x|].
+  { destruct Hrest as [[? _]|(_ & _ & ->)]; [discriminate|exact L4]. }
+  destruct Hrest as [[_ H]|(Hne & _)]; [|congruence].
+  destruct L4 as [HI4 F4].
+  assert (F04 : aj_frame s s4) by (eapply aj_frame_trans; eauto).
+  pose proof (IH s4 oP s' e (AStat_frame s s4 F04 St) HI4 H) as R.
+  destruct e as [x|]; [exact R|]. destruct R as (R1 & R2 & R3).
+  split; [exact R1|]. split; [exact R2|eapply aj_frame_trans; eauto].
+Qed.
